@@ -33,6 +33,8 @@
 //!      between salts (the empty file has the all-zero hash under every salt on HEAD: known, not re-reported);
 //!   E8 two sessions open at the same time on one store; E9 (chunks <= 4 KiB) files with > 128 fragmented dedup ranges (one-chunk
 //!      ranges, two-chunk ranges between new data, all-known hopping), i.e. the fragmentation check at its default settings;
+//!   E10 (chunks <= 4 KiB, ingestion block >= 1 MiB: children J, H) files of exactly 511 / 512 / 513 / 769 / 1023 / 1025 / 1279 / 2049
+//!      chunks that fit into ONE ingestion block, fed in one add_data call and in 64 KiB calls: same pointer, == reference;
 //!   every extras session ends with `finalize_with_file_info`: each file has a record, its size, segment byte sum and SHA-256
 //!   (own implementation, self-tested) are right; downloads also use edge ranges (start == end, first / last byte, end beyond the
 //!   file: an error or the part inside the file) and alternate smudge_file_from_pointer / smudge_file_from_hash.
@@ -45,6 +47,7 @@
 //! Further children: (E) 2 KiB chunks with divisor 4 / multiplier 3, 2-chunk xorbs, 5000-byte ingestion blocks and (F) 1-chunk xorbs -
 //! extras only; (G) 4 KiB chunks, 40-chunk xorbs, fragmentation estimator over 4 ranges, repo salt 0x5a.., global dedup policy Never;
 //! (H) 4 KiB chunks, 100,000-byte xorbs, minimum shard size 2048 (several session shards), default 8 MiB ingestion block;
+//! (J) 1 KiB chunks with the default 8 MiB ingestion block and default xorb limits - extras only, for E10;
 //! (I) 128-byte chunks, divisor 2 (minimum 64: no skip-ahead) / multiplier 4, 30,000-byte xorbs, 300-byte ingestion blocks; (P) three PROCESSES
 //! over one store: upload + pointer files on disk; a session that cleans files and dies without finalize; a fresh process that
 //! reads the pointer files (`init_from_path`), downloads, uploads related content and downloads everything (minimum shard size 2048,
@@ -79,6 +82,8 @@ struct Config {
     opt_in: Option<&'static str>,
     /// processes run one after the other over ONE store directory (see `phased`); empty = the normal single process
     phases: &'static [u8],
+    /// of the extras only E10
+    e10_only: bool,
 }
 
 const ENV_NAMES: [&str; 11] = [
@@ -95,22 +100,24 @@ const ENV_NAMES: [&str; 11] = [
     "HF_XET_MIN_N_CHUNKS_PER_RANGE",
 ];
 
-const CONFIGS: [Config; 12] = [
-    Config { name: "A: 64 KiB chunks, xorb limit 1,000,000 bytes, ingestion block 3 MiB", env: &[("HF_XET_MAX_XORB_BYTES", "1000000"), ("HF_XET_INGESTION_BLOCK_SIZE", "3145728")], full: true, salt: 0, never: false, opt_in: None, phases: &[] },
-    Config { name: "B: 4 KiB chunks, xorb limit 40 chunks, ingestion block 50,000 bytes", env: &[("HF_XET_TARGET_CHUNK_SIZE", "4096"), ("HF_XET_MAX_XORB_CHUNKS", "40"), ("HF_XET_INGESTION_BLOCK_SIZE", "50000")], full: true, salt: 0, never: false, opt_in: None, phases: &[] },
-    Config { name: "C: 4 KiB chunks, xorb limit 150,000 bytes, ingestion block 1 MiB", env: &[("HF_XET_TARGET_CHUNK_SIZE", "4096"), ("HF_XET_MAX_XORB_BYTES", "150000"), ("HF_XET_INGESTION_BLOCK_SIZE", "1048576")], full: true, salt: 0, never: false, opt_in: None, phases: &[] },
+const CONFIGS: [Config; 13] = [
+    Config { name: "A: 64 KiB chunks, xorb limit 1,000,000 bytes, ingestion block 3 MiB", env: &[("HF_XET_MAX_XORB_BYTES", "1000000"), ("HF_XET_INGESTION_BLOCK_SIZE", "3145728")], full: true, salt: 0, never: false, opt_in: None, phases: &[], e10_only: false },
+    Config { name: "B: 4 KiB chunks, xorb limit 40 chunks, ingestion block 50,000 bytes", env: &[("HF_XET_TARGET_CHUNK_SIZE", "4096"), ("HF_XET_MAX_XORB_CHUNKS", "40"), ("HF_XET_INGESTION_BLOCK_SIZE", "50000")], full: true, salt: 0, never: false, opt_in: None, phases: &[], e10_only: false },
+    Config { name: "C: 4 KiB chunks, xorb limit 150,000 bytes, ingestion block 1 MiB", env: &[("HF_XET_TARGET_CHUNK_SIZE", "4096"), ("HF_XET_MAX_XORB_BYTES", "150000"), ("HF_XET_INGESTION_BLOCK_SIZE", "1048576")], full: true, salt: 0, never: false, opt_in: None, phases: &[], e10_only: false },
     // an ingestion block SMALLER than the largest chunk (64 KiB target -> 128 KiB maximum chunk)
-    Config { name: "D: 64 KiB chunks, ingestion block 100,000 bytes (smaller than the largest chunk), xorb limit 2,000,000 bytes", env: &[("HF_XET_MAX_XORB_BYTES", "2000000"), ("HF_XET_INGESTION_BLOCK_SIZE", "100000")], full: true, salt: 0, never: false, opt_in: None, phases: &[] },
-    Config { name: "E: 2 KiB chunks with minimum = target/4 and maximum = 3 x target, xorb limit 2 chunks, ingestion block 5000 bytes", env: &[("HF_XET_TARGET_CHUNK_SIZE", "2048"), ("HF_XET_MINIMUM_CHUNK_DIVISOR", "4"), ("HF_XET_MAXIMUM_CHUNK_MULTIPLIER", "3"), ("HF_XET_MAX_XORB_CHUNKS", "2"), ("HF_XET_INGESTION_BLOCK_SIZE", "5000")], full: false, salt: 0, never: false, opt_in: None, phases: &[] },
-    Config { name: "F: 4 KiB chunks, xorb limit 1 chunk, ingestion block 20,000 bytes", env: &[("HF_XET_TARGET_CHUNK_SIZE", "4096"), ("HF_XET_MAX_XORB_CHUNKS", "1"), ("HF_XET_INGESTION_BLOCK_SIZE", "20000")], full: false, salt: 0, never: false, opt_in: None, phases: &[] },
-    Config { name: "G: 4 KiB chunks, xorb limit 40 chunks, ingestion block 30,000 bytes, fragmentation estimator over 4 ranges, repo salt 0x5a.., global dedup policy Never", env: &[("HF_XET_TARGET_CHUNK_SIZE", "4096"), ("HF_XET_MAX_XORB_CHUNKS", "40"), ("HF_XET_INGESTION_BLOCK_SIZE", "30000"), ("HF_XET_NRANGES_IN_STREAMING_FRAGMENTATION_ESTIMATOR", "4")], full: true, salt: 0x5a, never: true, opt_in: None, phases: &[] },
-    Config { name: "H: 4 KiB chunks, xorb limit 100,000 bytes, minimum shard size 2048 bytes, default ingestion block (8 MiB)", env: &[("HF_XET_TARGET_CHUNK_SIZE", "4096"), ("HF_XET_MAX_XORB_BYTES", "100000"), ("HF_XET_MDB_SHARD_MIN_TARGET_SIZE", "2048")], full: true, salt: 0, never: false, opt_in: None, phases: &[] },
-    Config { name: "I: 128-byte chunks with minimum = target/2 = 64 (the chunker's skip-ahead never runs) and maximum = 4 x target, xorb limit 30,000 bytes, ingestion block 300 bytes (smaller than the largest chunk)", env: &[("HF_XET_TARGET_CHUNK_SIZE", "128"), ("HF_XET_MINIMUM_CHUNK_DIVISOR", "2"), ("HF_XET_MAXIMUM_CHUNK_MULTIPLIER", "4"), ("HF_XET_MAX_XORB_BYTES", "30000"), ("HF_XET_INGESTION_BLOCK_SIZE", "300")], full: true, salt: 0, never: false, opt_in: None, phases: &[] },
+    Config { name: "D: 64 KiB chunks, ingestion block 100,000 bytes (smaller than the largest chunk), xorb limit 2,000,000 bytes", env: &[("HF_XET_MAX_XORB_BYTES", "2000000"), ("HF_XET_INGESTION_BLOCK_SIZE", "100000")], full: true, salt: 0, never: false, opt_in: None, phases: &[], e10_only: false },
+    Config { name: "E: 2 KiB chunks with minimum = target/4 and maximum = 3 x target, xorb limit 2 chunks, ingestion block 5000 bytes", env: &[("HF_XET_TARGET_CHUNK_SIZE", "2048"), ("HF_XET_MINIMUM_CHUNK_DIVISOR", "4"), ("HF_XET_MAXIMUM_CHUNK_MULTIPLIER", "3"), ("HF_XET_MAX_XORB_CHUNKS", "2"), ("HF_XET_INGESTION_BLOCK_SIZE", "5000")], full: false, salt: 0, never: false, opt_in: None, phases: &[], e10_only: false },
+    Config { name: "F: 4 KiB chunks, xorb limit 1 chunk, ingestion block 20,000 bytes", env: &[("HF_XET_TARGET_CHUNK_SIZE", "4096"), ("HF_XET_MAX_XORB_CHUNKS", "1"), ("HF_XET_INGESTION_BLOCK_SIZE", "20000")], full: false, salt: 0, never: false, opt_in: None, phases: &[], e10_only: false },
+    Config { name: "G: 4 KiB chunks, xorb limit 40 chunks, ingestion block 30,000 bytes, fragmentation estimator over 4 ranges, repo salt 0x5a.., global dedup policy Never", env: &[("HF_XET_TARGET_CHUNK_SIZE", "4096"), ("HF_XET_MAX_XORB_CHUNKS", "40"), ("HF_XET_INGESTION_BLOCK_SIZE", "30000"), ("HF_XET_NRANGES_IN_STREAMING_FRAGMENTATION_ESTIMATOR", "4")], full: true, salt: 0x5a, never: true, opt_in: None, phases: &[], e10_only: false },
+    Config { name: "H: 4 KiB chunks, xorb limit 100,000 bytes, minimum shard size 2048 bytes, default ingestion block (8 MiB)", env: &[("HF_XET_TARGET_CHUNK_SIZE", "4096"), ("HF_XET_MAX_XORB_BYTES", "100000"), ("HF_XET_MDB_SHARD_MIN_TARGET_SIZE", "2048")], full: true, salt: 0, never: false, opt_in: None, phases: &[], e10_only: false },
+    Config { name: "I: 128-byte chunks with minimum = target/2 = 64 (the chunker's skip-ahead never runs) and maximum = 4 x target, xorb limit 30,000 bytes, ingestion block 300 bytes (smaller than the largest chunk)", env: &[("HF_XET_TARGET_CHUNK_SIZE", "128"), ("HF_XET_MINIMUM_CHUNK_DIVISOR", "2"), ("HF_XET_MAXIMUM_CHUNK_MULTIPLIER", "4"), ("HF_XET_MAX_XORB_BYTES", "30000"), ("HF_XET_INGESTION_BLOCK_SIZE", "300")], full: true, salt: 0, never: false, opt_in: None, phases: &[], e10_only: false },
+    // one add_data call / ingestion block that yields hundreds to thousands of chunks (E10)
+    Config { name: "J: 1 KiB chunks, default ingestion block (8 MiB) and default xorb limits: one add_data call yields up to 2049 chunks", env: &[("HF_XET_TARGET_CHUNK_SIZE", "1024")], full: false, salt: 0, never: false, opt_in: None, phases: &[], e10_only: true },
     // histories across PROCESSES (the shard cache is read back from disk; pointers travel as pointer files)
-    Config { name: "P: three processes over one store (upload; a session that dies without finalize; download + upload), 4 KiB chunks, xorb limit 100,000 bytes, minimum shard size 2048 bytes, repo salt 0x33..", env: &[("HF_XET_TARGET_CHUNK_SIZE", "4096"), ("HF_XET_MAX_XORB_BYTES", "100000"), ("HF_XET_MDB_SHARD_MIN_TARGET_SIZE", "2048"), ("HF_XET_INGESTION_BLOCK_SIZE", "65536")], full: false, salt: 0x33, never: false, opt_in: None, phases: &[1, 2, 3] },
-    Config { name: "Q: two processes over one store, cached shards expire at once (local cache expiration 0 s, deletion buffer 0 s), 4 KiB chunks, xorb limit 60 chunks", env: &[("HF_XET_TARGET_CHUNK_SIZE", "4096"), ("HF_XET_MAX_XORB_CHUNKS", "60"), ("HF_XET_MDB_SHARD_LOCAL_CACHE_EXPIRATION_SECS", "0"), ("HF_XET_MDB_SHARD_EXPIRATION_BUFFER_SECS", "0"), ("HF_XET_INGESTION_BLOCK_SIZE", "65536")], full: false, salt: 0, never: true, opt_in: None, phases: &[1, 3] },
+    Config { name: "P: three processes over one store (upload; a session that dies without finalize; download + upload), 4 KiB chunks, xorb limit 100,000 bytes, minimum shard size 2048 bytes, repo salt 0x33..", env: &[("HF_XET_TARGET_CHUNK_SIZE", "4096"), ("HF_XET_MAX_XORB_BYTES", "100000"), ("HF_XET_MDB_SHARD_MIN_TARGET_SIZE", "2048"), ("HF_XET_INGESTION_BLOCK_SIZE", "65536")], full: false, salt: 0x33, never: false, opt_in: None, phases: &[1, 2, 3], e10_only: false },
+    Config { name: "Q: two processes over one store, cached shards expire at once (local cache expiration 0 s, deletion buffer 0 s), 4 KiB chunks, xorb limit 60 chunks", env: &[("HF_XET_TARGET_CHUNK_SIZE", "4096"), ("HF_XET_MAX_XORB_CHUNKS", "60"), ("HF_XET_MDB_SHARD_LOCAL_CACHE_EXPIRATION_SECS", "0"), ("HF_XET_MDB_SHARD_EXPIRATION_BUFFER_SECS", "0"), ("HF_XET_INGESTION_BLOCK_SIZE", "65536")], full: false, salt: 0, never: true, opt_in: None, phases: &[1, 3], e10_only: false },
     // opt-in probe: a xorb byte limit smaller than the largest chunk (8192 bytes)
-    Config { name: "X: 4 KiB chunks, xorb limit 6000 bytes (smaller than the largest chunk), ingestion block 20,000 bytes", env: &[("HF_XET_TARGET_CHUNK_SIZE", "4096"), ("HF_XET_MAX_XORB_BYTES", "6000"), ("HF_XET_INGESTION_BLOCK_SIZE", "20000")], full: false, salt: 0, never: false, opt_in: Some("VERIF_C01_TINY_XORB"), phases: &[] },
+    Config { name: "X: 4 KiB chunks, xorb limit 6000 bytes (smaller than the largest chunk), ingestion block 20,000 bytes", env: &[("HF_XET_TARGET_CHUNK_SIZE", "4096"), ("HF_XET_MAX_XORB_BYTES", "6000"), ("HF_XET_INGESTION_BLOCK_SIZE", "20000")], full: false, salt: 0, never: false, opt_in: Some("VERIF_C01_TINY_XORB"), phases: &[], e10_only: false },
 ];
 
 /// the layout of `TranslatorConfig::local_config`, with the salt and the global dedup policy chosen by the caller
@@ -1046,7 +1053,68 @@ fn exact_bytes(pool: &mut Pool, l: &Limits, total: usize) -> (Vec<u8>, usize) {
     (out, n)
 }
 
-async fn extras(tp: Arc<ThreadPool>, l: Arc<Limits>, cfg_name: String, seed: u64, never: bool) -> Option<String> {
+/// E10: files of exactly N chunks that fit into ONE ingestion block, fed in one add_data call and in 64 KiB calls
+async fn e10(x: &mut Xs, pool: &mut Pool, seed: u64) -> Option<String> {
+    let l = x.l.clone();
+    let mn = l.target / l.div;
+    let one = Feed::Parts(Part::One);
+    let zero = [0u8; 32];
+    let mut rng = StdRng::seed_from_u64(seed ^ 0xE10);
+    let mut random = |n: usize| -> Vec<u8> {
+        let mut v = vec![0u8; n];
+        rng.fill(&mut v[..]);
+        v
+    };
+    // ---- E10: ONE add_data call (one ingestion block) that yields 511 .. 2049 chunks, against the same bytes fed in 64 KiB calls
+    if l.target <= 4096 && l.ingestion >= 1 << 20 {
+        let store_a = tempfile::tempdir().unwrap();
+        let store_b = tempfile::tempdir().unwrap();
+        let (mut ea, mut eb) = (vec![], vec![]);
+        let calls64k = Feed::Parts(Part::Cycle(vec![65536]));
+        let (mut fa, mut fb) = (vec![], vec![]);
+        let counts: &[usize] = if l.target <= 1024 { &[511, 512, 513, 769, 1023, 1025, 1279, 2049] } else { &[512, 513, 769] };
+        for &n in counts {
+            let chunks = pool.fresh(&l, n);
+            let bytes: usize = chunks.iter().map(|c| c.len()).sum();
+            if bytes + mn > l.ingestion {
+                pool.next -= n;
+                continue;
+            }
+            let data = Arc::new(cat(&[&chunks]));
+            let what = format!("exactly {n} fresh chunks: one add_data call of these {bytes} bytes (one ingestion block of {}) yields {n} chunks", l.ingestion);
+            fa.push(XF { name: format!("block-{n}"), what: what.clone(), data: data.clone(), feed: one.clone() });
+            fb.push(XF { name: format!("block-{n}"), what, data, feed: calls64k.clone() });
+            if n == 769 {
+                // the same with a tail that only `finish` turns into a chunk
+                let data = Arc::new([&cat(&[&pool.fresh(&l, 700)])[..], &random(mn / 2)[..]].concat());
+                let what = format!("exactly 700 fresh chunks + {} bytes", mn / 2);
+                fa.push(XF { name: "block-700+tail".into(), what: what.clone(), data: data.clone(), feed: one.clone() });
+                fb.push(XF { name: "block-700+tail".into(), what, data, feed: calls64k.clone() });
+            }
+        }
+        if !fa.is_empty() {
+            if let Some(w) = x.step("E10 (fresh store; every file in ONE add_data call)", store_a.path(), zero, &fa, false, &mut ea).await {
+                return Some(w);
+            }
+            if let Some(w) = x.step("E10 (another fresh store; the same files in add_data calls of 64 KiB)", store_b.path(), zero, &fb, false, &mut eb).await {
+                return Some(w);
+            }
+            for ((f, pa, _), (_, pb, _)) in ea.iter().zip(&eb) {
+                if pa.hash_string() != pb.hash_string() || pa.filesize() != pb.filesize() {
+                    return Some(format!("config {}; extras, E10: file '{}' ({}) gets pointer ({}, {}) when fed in one add_data call and ({}, {}) when fed in 64 KiB calls", x.cfg_name, f.name, f.what, pa.hash_string(), pa.filesize(), pb.hash_string(), pb.filesize()));
+                }
+            }
+            // one session holding both feeds of one file: the second is fully deduplicated against the first
+            let both = [fa[fa.len() - 1].clone(), XF { name: "block-again".into(), ..fb[fb.len() - 1].clone() }];
+            if let Some(w) = x.step("E10 (first store again: the largest file in one call, then in 64 KiB calls, in one session)", store_a.path(), zero, &both, false, &mut ea).await {
+                return Some(w);
+            }
+        }
+    }
+    None
+}
+
+async fn extras(tp: Arc<ThreadPool>, l: Arc<Limits>, cfg_name: String, seed: u64, never: bool, e10_only: bool) -> Option<String> {
     let mut pool = Pool { rng: StdRng::seed_from_u64(seed ^ 0xE57A), chunks: vec![], next: 0 };
     let mut rng = StdRng::seed_from_u64(seed ^ 0xE57B);
     let (mn, mx) = (l.target / l.div, l.target * l.mult);
@@ -1061,6 +1129,9 @@ async fn extras(tp: Arc<ThreadPool>, l: Arc<Limits>, cfg_name: String, seed: u64
         v
     };
     let mut x = Xs { tp, l: l.clone(), cfg_name, never, refs: Refs::default(), files_dir: tempfile::tempdir().unwrap(), scratch: tempfile::tempdir().unwrap() };
+    if e10_only {
+        return e10(&mut x, &mut pool, seed).await;
+    }
 
     // ---- E1: data_client::clean_file on real files; E2: cleaner API edge cases (one store, two sessions)
     {
@@ -1429,7 +1500,7 @@ async fn extras(tp: Arc<ThreadPool>, l: Arc<Limits>, cfg_name: String, seed: u64
             return Some(w);
         }
     }
-    None
+    e10(&mut x, &mut pool, seed).await
 }
 
 /// Histories across processes.  Phase 1 uploads and leaves pointer FILES; phase 2 cleans files in a session and the process exits
@@ -1557,7 +1628,7 @@ fn child(idx: usize, phase: u8, dir: Option<std::path::PathBuf>) -> i32 {
     }
     let seed = std::env::var("VERIF_SEED").ok().and_then(|s| s.parse().ok()).unwrap_or(0u64);
     let salt = [c.salt; 32];
-    let (full, never) = (c.full, c.never);
+    let (full, never, e10_only) = (c.full, c.never, c.e10_only);
     let l = Arc::new(l);
     let tp = Arc::new(ThreadPool::new().expect("runtime"));
     let tp2 = tp.clone();
@@ -1569,7 +1640,7 @@ fn child(idx: usize, phase: u8, dir: Option<std::path::PathBuf>) -> i32 {
         // the extras run beside the three-store scenario, in their own stores
         let no_extras = std::env::var("VERIF_C01_NO_EXTRAS").is_ok();
         let (tp3, l3) = (tp2.clone(), l.clone());
-        let ex = tokio::spawn(async move { if no_extras { None } else { extras(tp3, l3, cfg_name.to_string(), seed, never).await } });
+        let ex = tokio::spawn(async move { if no_extras { None } else { extras(tp3, l3, cfg_name.to_string(), seed, never, e10_only).await } });
         let main = if full {
             let (specs, sessions) = build(&l, seed);
             run_all(tp2, l.clone(), Arc::new(specs), Arc::new(sessions), cfg_name.to_string(), salt, never).await
